@@ -201,8 +201,168 @@ pub fn cluster_check(property: &str, tier: &str) -> Option<Check> {
             let _ = l13;
             Some(Check { runs, budget_s: if quick { 50 } else { 1200 } })
         }
+        "C03" | "C26" | "C27" | "C28" => Some(membership_check(property, quick)),
         _ => None,
     }
+}
+
+fn build_prefix<F: FnOnce(&mut crate::prefix::Script) -> bool + std::panic::UnwindSafe>(
+    opts: &Opts,
+    f: F,
+) -> Option<Vec<Event>> {
+    let o = opts.clone();
+    std::panic::catch_unwind(move || {
+        let mut s = crate::prefix::Script::new(&o);
+        if f(&mut s) {
+            Some(s.finish())
+        } else {
+            if std::env::var("VERIF_TRACE").is_ok() {
+                eprintln!("prefix script did not reach its goal; events so far: {:?}", s.events);
+                for id in 1..=5 {
+                    if let Some(v) = s.view(id) {
+                        eprintln!("  n{} {:?} t{} c{} log{:?} cfg{:?} members{:?}", v.id, v.role, v.term, v.commit,
+                            v.log.iter().map(|e| (e.index, e.term)).collect::<Vec<_>>(), v.configs, v.members);
+                    }
+                }
+                eprintln!("  links {:?}", s.links());
+            }
+            None
+        }
+    })
+    .ok()
+    .flatten()
+}
+
+/// Membership-change explorations (C03, C26, C27, C28).
+fn membership_check(property: &str, quick: bool) -> Check {
+    use crate::simkit::cluster::RoleKind;
+    let mut runs = vec![];
+    let mut menu = Menu::default();
+    menu.joins = true;
+    menu.max_heartbeats = 2;
+    menu.vote_answers = vec![VoteAns::Deliver, VoteAns::Lose];
+    menu.writes = vec![put("a", "1"), put("a", "2")];
+    menu.max_writes = 1;
+    if property == "C28" {
+        menu.crashes = vec![CrashMode::Process];
+        menu.stops = true;
+        menu.max_crashes = 1;
+    }
+
+    // ---- A: 3 voters, two nodes may join; from the point where leader 1 is established
+    let mut a = Opts::default();
+    a.joiners = vec![4, 5];
+    if let Some(p) = build_prefix(&a, |s| {
+        s.elect(1).drain_all();
+        true
+    }) {
+        runs.push(RunSpec {
+            name: "3v+2joiners-leader-established".into(),
+            opts: a.clone(),
+            menu: menu.clone(),
+            prefix: p,
+            max_depth: if quick { 7 } else { 10 },
+            max_devs: if quick { 1 } else { 2 },
+        });
+    }
+
+    // ---- B: both learners joined and caught up; BatchPromote([4,5]) appended at the leader,
+    //         replicated to node 2 only; leader applied it; 4 and 5 know about it; node 3 holds
+    //         the entry but has not learned that it is committed
+    if let Some(p) = build_prefix(&a, |s| {
+        s.elect(1).drain_all();
+        s.ev(Event::Join(4)).drain_all();
+        s.ev(Event::Join(5));
+        let has_promote = |s: &crate::prefix::Script| {
+            s.view(1).map(|v| v.configs.iter().any(|(_, d)| d.starts_with("BatchPromote"))).unwrap_or(false)
+        };
+        // learners start from an empty log: several heartbeat rounds until they have caught up
+        // and the leader proposes their promotion
+        let mut reached = false;
+        for _ in 0..10 {
+            if s.drain_until(|_, _| true, has_promote) {
+                reached = true;
+                break;
+            }
+            s.ev(Event::Heartbeat(1));
+        }
+        if !reached {
+            return false;
+        }
+        // the entry reaches node 2 and is acknowledged: committed by {1,2} of the old config
+        s.drain(|l, _| l.from == 1 && l.to == 2);
+        // node 3 receives the entry (no commit information yet)
+        let l13 = s.links().into_iter().find(|(l, n, _, dead)| l.from == 1 && l.to == 3 && *n > 0 && !*dead).map(|x| x.0);
+        if let Some(l) = l13 {
+            s.ev(Event::Deliver(l, 1));
+        }
+        // the new voters learn the entry and that it is committed
+        s.ev(Event::Heartbeat(1));
+        s.drain(|l, _| l.from == 1 && (l.to == 4 || l.to == 5));
+        s.view(4).map(|v| v.role == RoleKind::Follower).unwrap_or(false)
+    }) {
+        let mut m = menu.clone();
+        m.joins = false;
+        m.max_heartbeats = 1;
+        runs.push(RunSpec {
+            name: "3v->5v-promotion-applied-at-1-4-5-not-at-2-3".into(),
+            opts: a.clone(),
+            menu: m,
+            prefix: p,
+            max_depth: if quick { 10 } else { 12 },
+            max_devs: if quick { 2 } else { 3 },
+        });
+    }
+
+    // ---- C: a node bootstrapped alone, later expanded (C03: must still win real votes)
+    let mut c1 = Opts::default();
+    c1.voters = vec![1];
+    c1.joiners = vec![2, 3];
+    if let Some(p) = build_prefix(&c1, |s| {
+        s.ev(Event::Timeout(1)).ev(Event::Timeout(1)).drain_all();
+        s.view(1).map(|v| v.role == RoleKind::Leader).unwrap_or(false)
+    }) {
+        runs.push(RunSpec {
+            name: "1v+2joiners-single-node-leader".into(),
+            opts: c1.clone(),
+            menu: menu.clone(),
+            prefix: p,
+            max_depth: if quick { 8 } else { 11 },
+            max_devs: if quick { 1 } else { 2 },
+        });
+    }
+    // ---- D: the single node has been expanded to 3 voters; then its leader role ends
+    if let Some(p) = build_prefix(&c1, |s| {
+        s.ev(Event::Timeout(1)).ev(Event::Timeout(1)).drain_all();
+        s.ev(Event::Join(2)).drain_all();
+        s.ev(Event::Join(3));
+        let promoted = |s: &crate::prefix::Script| {
+            s.view(2).map(|v| v.role == RoleKind::Follower).unwrap_or(false)
+                && s.view(3).map(|v| v.role == RoleKind::Follower).unwrap_or(false)
+        };
+        for _ in 0..12 {
+            if s.drain_until(|_, _| true, promoted) {
+                return true;
+            }
+            s.ev(Event::Heartbeat(1));
+        }
+        false
+    }) {
+        let mut m = menu.clone();
+        m.joins = false;
+        m.crashes = vec![CrashMode::Process];
+        m.stops = true;
+        m.max_crashes = 1;
+        runs.push(RunSpec {
+            name: "1v-expanded-to-3v".into(),
+            opts: c1.clone(),
+            menu: m,
+            prefix: p,
+            max_depth: if quick { 8 } else { 11 },
+            max_devs: if quick { 2 } else { 3 },
+        });
+    }
+    Check { runs, budget_s: if quick { 50 } else { 1200 } }
 }
 
 pub fn replay_file(property: &str, path: &str, out: &mut std::fs::File) -> i32 {
